@@ -419,6 +419,24 @@ def run(analysis: Analysis, tier: str) -> RuleResult:
     from .c03 import is_version_floor
 
     is_version_floor(analysis, res, "C18-R3")
+    # a version string selects THAT version's tables: every module's tables equal the reviewed reference of its own
+    # version (a later module updating an imported table in place changes an older one) - C03-R1..R3 as a lemma
+    from . import c03
+
+    class _L:
+        extra = res.extra
+
+        @staticmethod
+        def add(rule, *a, **kw):
+            res.add("C18-L:" + rule, *a, **kw)
+
+    c03.conformance(analysis, _L)
+    # reconnect_timeout takes effect: it is the wait between connect attempts in all four connect loops (C20-R2)
+    from . import c20
+
+    for summ in common.pmap(analysis, c20.connect_worker, c20.CONNECTS):
+        bad = [r for r in summ["rows"] if "sleep?" in r["seq"]]
+        res.add("C18-R1", f"{summ['qual']} / reconnect_timeout is what the connect loop waits between attempts", not bad, "mysensors", "sleep(transport.reconnect_timeout)" if not bad else "a failed attempt waits something other than transport.reconnect_timeout: the option is stored but does not take effect", bad[0]["witness"] if bad else None)
     for summ in common.pmap(analysis, selector_worker, ["x"]):
         seen = False
         for r in summ["rows"]:
